@@ -245,7 +245,7 @@ def rand_step(rng, n):
 def rand_case(rng, steps=1):
     n = rng.choice([1, 2, 3, 3, 4])
     seq = [rand_step(rng, n) for _ in range(steps)]
-    c = mk_case("rand" if steps == 1 else "seq", seq, rng.choice(Labels.STYLES))
+    c = mk_case("rand" if steps == 1 else "seq", seq, rng.choice(Labels.STYLES_X))
     return add_neutral(rng, c) if steps > 1 else c
 
 NEUTRAL = ["refresh", "copy", "iadd0", "cancel", "subs"]
@@ -317,7 +317,7 @@ def run_case(rng, steps):
         st = make_step(rng, items, n, rel, rng.random() < 0.8, rng.choice(BMODES), lam, sup=rng.random() < 0.1,
                        hkind="expr")
         seq.append(st)
-    c = mk_case("run", seq, rng.choice(Labels.STYLES))
+    c = mk_case("run", seq, rng.choice(Labels.STYLES_X))
     c["n"] = max(c["n"], n)
     c["running"] = obj
     c["post"] = items_of(canon_items(next_target(rng, items, n) + [[[], rng.choice(["-2", "3"])]]))
